@@ -14,6 +14,7 @@ import k4
 import k5
 import k6
 import k7
+import controls
 
 _CTX = {}
 
@@ -50,7 +51,7 @@ PROPS = {
     },
     "C03": {
         "title": "A process crash at any instant loses no acknowledged write and corrupts nothing",
-        "rules": [k2.p1_append_flushes, k2.p3_publish_after_append, k2m.p4_merge_per_entry_order, k2m.p5_merge_outputs_before_unlink, k1.w1_file_mutation_api, k1.w7_recovery_read_only, k4.v1_log_iterator_eof],
+        "rules": [k2.p1_append_flushes, k2.p3_publish_after_append, k2m.p4_merge_per_entry_order, k2m.p5_merge_outputs_before_unlink, k1.w1_file_mutation_api, controls.control("W1"), k1.w7_recovery_read_only, k4.v1_log_iterator_eof],
         "decides": "order constraints that must hold on every path for every kill point to be safe: an append that returned has flushed; index/ack follow the append; merge never issues an index re-point or hint record for bytes not yet in the file, never unlinks (in ascending order) before outputs are flushed+synced; only create-exclusive+append and whole-file unlink exist; a torn tail is skipped, not fatal",
         "not_decided": "that these order constraints are sufficient; enumeration of crash points as executions",
     },
@@ -74,7 +75,7 @@ PROPS = {
     },
     "C07": {
         "title": "The RESP parser is total: no input panics, aborts or mis-reads a number",
-        "rules": [k6.n1_parser_total, k5.r1_bounded_recursion, k1.w4_no_abort, k3.s10_check_parse_readers, k4.v2_parse_frame],
+        "rules": [k6.n1_parser_total, k5.r1_bounded_recursion, controls.control("R1"), k1.w4_no_abort, controls.control("W4"), k3.s10_check_parse_readers, k4.v2_parse_frame],
         "decides": "every panic obligation of the parser slice (bounds, overflow, Buf preconditions, slice ranges, allocation size, unwrap/panic) discharged by abstract interpretation for every buffer and cursor position; bounded recursion depth (ranking argument on every call-graph cycle); no process-terminating call",
         "not_decided": "digit-by-digit value correctness of accepted numbers",
     },
@@ -92,7 +93,7 @@ PROPS = {
     },
     "C10": {
         "title": "Hostile or malformed input harms only the connection that sent it",
-        "rules": [k2s.p10_accept_loop, k2s.p12_handler_loop, k1.w4_no_abort, k5.r1_bounded_recursion, k1.w5_permit_ops, k3.s9_command_table],
+        "rules": [k2s.p10_accept_loop, k2s.p12_handler_loop, k1.w4_no_abort, controls.control("W4"), k5.r1_bounded_recursion, controls.control("R1"), k1.w5_permit_ops, k3.s9_command_table],
         "decides": "each connection runs in its own spawned task that owns its Handler (a panic ends one task; the permit returns via Drop); only commands validated by Command::try_from reach set/del, names by full equality; no exit/abort/panic=abort; recursion bounded",
         "not_decided": "that other connections observe correct answers meanwhile",
     },
@@ -116,7 +117,7 @@ PROPS = {
     },
     "C14": {
         "title": "Data files are append-only and immutable, with ids that only grow",
-        "rules": [k1.w1_file_mutation_api, k1.w7_recovery_read_only, k2.p14_rollover_test, k2m.p5_merge_outputs_before_unlink, k2m.s7_s8_merge_sets],
+        "rules": [k1.w1_file_mutation_api, controls.control("W1"), k1.w7_recovery_read_only, k2.p14_rollover_test, k2m.p5_merge_outputs_before_unlink, k2m.s7_s8_merge_sets],
         "exhaustive": True,
         "decides": "exhaustively over every call site: the only write-capable open is create_new+append; no truncate/rename/set_len/pwrite/MmapMut/seek-on-writer; unlink only in merge on store file names; reopen never opens an old file for writing; a rollover test follows every append; merge rotates the active id above its outputs",
         "not_decided": "'greater than every id the directory has ever contained' (arithmetic over histories)",
@@ -153,7 +154,7 @@ PROPS = {
     },
     "C20": {
         "title": "A failed disk operation is reported and leaves the store consistent",
-        "rules": [k5.e1_no_dropped_result, k2m.p5_merge_outputs_before_unlink, k2.p13_writer_identity_pair, k2.p3_publish_after_append, k2.p1_append_flushes],
+        "rules": [k5.e1_no_dropped_result, controls.control("E1"), k2m.p5_merge_outputs_before_unlink, k2.p13_writer_identity_pair, k2.p3_publish_after_append, k2.p1_append_flushes],
         "decides": "no storage Result is dropped; no buffered output is left to Drop's error-swallowing flush before unlink/Ok; active_fileid and writer change together or not at all on every error path; the index is touched only on the Ok edge of the append; flush errors of append are propagated",
         "not_decided": "the effect of each errno as behaviour; history-shaped fault defects D11/D12 (DESIGN.md section 6)",
     },
